@@ -4,6 +4,10 @@
 (* be the next event of that run, the "end" record its end record.             *)
 EXTENDS Exec, TLC, Json, IOUtils
 Rec == ndJsonDeserialize(IOEnv.TRACE)
+\* a decoded export (per step a name -> value map, here a list sorted by name) against the ordered log
+AsSet(q) == {q[i] : i \in 1..Len(q)}
+SameSteps(dec, log) == /\ Len(dec) = Len(log)
+                       /\ \A k \in 1..Len(log) : Len(dec[k]) = Len(log[k]) /\ AsSet(dec[k]) = AsSet(log[k])
 VARIABLES l, pos
 tvars == <<evars, l, pos>>
 TraceInit == /\ prog = <<>> /\ script = <<>> /\ fault = <<"none", 0>>
@@ -11,8 +15,11 @@ TraceInit == /\ prog = <<>> /\ script = <<>> /\ fault = <<"none", 0>>
              /\ l = 1 /\ pos = 1
 Case == /\ Rec[l].ev = "case"
         /\ pos = Len(full.out) + 1            \* the previous run was consumed completely
+        \* C15: the configuration can be serialised, the serialisation names every component with its
+        \* nesting (the program can be read back from it), and a clone serialises identically
+        /\ Rec[l].ron_ok = 1 /\ Rec[l].clone_same = 1 /\ Rec[l].skel = Rec[l].prog
         /\ prog' = Rec[l].prog /\ script' = Rec[l].script /\ fault' = Rec[l].fault
-        /\ full' = RunProg(Rec[l].prog, Rec[l].script, Rec[l].fault)
+        /\ full' = RunProgX(Rec[l].prog, Rec[l].script, Rec[l].fault, Rec[l].rules, Rec[l].rootit)
         /\ pos' = 0
 Event == /\ Rec[l].ev = "e"
          /\ pos < Len(full.out)
@@ -22,6 +29,9 @@ Event == /\ Rec[l].ev = "e"
 EndRec == /\ Rec[l].ev = "end"
           /\ pos = Len(full.out)
           /\ Rec[l].end = full.end
+          \* C15: the log holds exactly the expected steps, and both exports decode to it
+          /\ Rec[l].log = full.log
+          /\ SameSteps(Rec[l].logj, full.log) /\ SameSteps(Rec[l].logc, full.log)
           /\ pos' = pos + 1
           /\ UNCHANGED evars
 TraceNext == l <= Len(Rec) /\ (Case \/ Event \/ EndRec) /\ l' = l + 1
